@@ -36,8 +36,8 @@ kani_unit("utils_reader", "winter-utils", "utils/core/src/serde/byte_reader.rs",
 native_unit("read_adapter_native", "winter-utils", "utils/core", "native/read_adapter_bounded.rs", ["C13", "C12"],
             ["ReadAdapter::{read_u8, peek_u8, read_slice, read_array, check_eor, has_more_bytes, pop, read_exact, buffer_at_least}",
              "ByteReader provided methods over ReadAdapter"],
-            "after every operation ReadAdapter returns what SliceReader returns on the same bytes (value or error kind); look-ahead is never pessimistic; no panic",
-            "NATIVE EXECUTION, not a proof: all operation sequences of length <= 3 over 19 operations on streams of 0..=12 bytes under 5 chunkings; 12000 (thorough: 60000) seeded sequences of 40 operations on streams of 0..=700 bytes under chunkings around the 256-byte internal buffer")
+            "after every operation ReadAdapter returns what SliceReader returns on the same bytes (value or error kind); look-ahead is never pessimistic; neither reader panics - also for lengths and counts near usize::MAX that no stream can satisfy, after any number of consumed bytes",
+            "NATIVE EXECUTION, not a proof: all operation sequences of length <= 3 over 19 operations on streams of 0..=12 bytes under 5 chunkings; 12000 (thorough: 60000) seeded sequences of 40 operations on streams of 0..=700 bytes under chunkings around the 256-byte internal buffer; 21 unsatisfiable lengths (usize::MAX - {0, 1, 2, 3, 7, 12, 300}, fractions of usize::MAX, 2^62 .. 2049) x read_slice / read_vec / read_string / read_many / check_eor, after 8 x 2 prefixes and before 6 follow-up operations, streams of 0..=700 bytes, 6 chunkings")
 
 native_unit("serde_native", "winter-utils", "utils/core", "native/serde_bounded.rs", ["C12"],
             ["Serializable / Deserializable for usize (vint64), u8..u128, (), Option<T>, [T; C], Vec<T>, String, BTreeMap<K, V>, BTreeSet<T>, tuples of 1..6", "ByteReader::read_many / read_string / read_usize", "ReadAdapter and SliceReader as byte sources"],
